@@ -285,6 +285,34 @@ fn judge_det_scaling(st: &mut Stats, rng: &mut Rng, class: &str, ar: &DM<Rat>) {
     }
 }
 
+/// inverse under column scaling: inverse(B*D) = D^-1 * inverse(B) for D = diag(2^c_j). Column scaling leaves every pivot
+/// choice and every multiplier unchanged, so the result must agree bit for bit (row i of the inverse times 2^-c_i) although
+/// the LU pivots of B*D span up to 2^1080 - a perfectly invertible matrix, all of whose entries and inverse entries are normal
+fn judge_inverse_scaling(st: &mut Stats, rng: &mut Rng, class: &str, ar: &DM<Rat>) {
+    let n = ar.r;
+    if n == 0 || n != ar.c { return; }
+    let af: Vec<Vec<f64>> = match ar.a.iter().map(|r| r.iter().map(|v| v.as_exact_f64()).collect::<Option<Vec<f64>>>()).collect::<Option<Vec<_>>>() { Some(x) => x, None => return };
+    if !matches!(catch(|| exact_det_rank_inv(ar)), Outcome::Ok((d, _, _)) if !d.is_zero()) { return; }
+    st.next_case();
+    let wide = rng.bool();
+    let cs: Vec<i32> = (0..n).map(|_| if wide { rng.int(-540, 540) } else { rng.int(-60, 60) } as i32).collect();
+    let p2 = |e: i32| 2f64.powi(e / 2) * 2f64.powi(e - e / 2);
+    let asc: Vec<Vec<f64>> = af.iter().map(|r| r.iter().enumerate().map(|(j, v)| v * p2(cs[j])).collect()).collect();
+    st.eval();
+    let x0 = match catch(|| mat_f64(&af).inverse()) { Outcome::Ok(x) => x, _ => return };
+    let want: Vec<Vec<f64>> = (0..n).map(|i| (0..n).map(|j| x0[(i, j)] * p2(-cs[i])).collect()).collect();
+    let in_range = |v: f64| v == 0.0 || (v.is_finite() && v.abs() > 1e-290 && v.abs() < 1e290);
+    if !want.iter().flatten().all(|v| in_range(*v)) || !(0..n).all(|i| (0..n).all(|j| in_range(x0[(i, j)]))) || !asc.iter().flatten().all(|v| in_range(*v)) { st.count("skipped:inverse-scaling-out-of-range"); return; }
+    match catch(|| mat_f64(&asc).inverse()) {
+        Outcome::Ok(x1) => {
+            let bad = (0..n).any(|i| (0..n).any(|j| x1[(i, j)].to_bits() != want[i][j].to_bits() && x1[(i, j)] != want[i][j]));
+            if bad { st.violation("C02:inverse:f64:scale-dependent", format!("columns scaled by 2^{:?}: inverse = {:?}, expected the row-scaled unscaled inverse {:?}; class={} A={:?}", cs, (0..n).map(|i| (0..n).map(|j| x1[(i, j)]).collect::<Vec<_>>()).collect::<Vec<_>>(), want, class, af)); }
+        }
+        o => st.violation("C02:inverse:f64:scale-dependent", format!("columns scaled by 2^{:?}: {} although the unscaled matrix was inverted; class={} A={:?}", cs, o.describe(), class, af)),
+    }
+    st.count("inverse:f64:pow2-column-scaling");
+}
+
 /// Graded matrices with an exact oracle: for block upper-triangular [[B11, H],[0, B22]] the elimination of the B11 columns
 /// has zero multipliers for the lower block, so H never mixes into B22 and the pivots are those of B11 and B22 computed
 /// separately; det must equal det(B11)*det(B22) (up to the association of one product) however huge H is.
@@ -314,6 +342,7 @@ fn all_types(st: &mut Stats, class: &str, ar: &DM<Rat>, ac: &DM<CRat>) {
     judge_cmplx(st, class, ac);
     let mut r = Rng::new(ar.a.iter().flatten().fold(17u64, |h, v| hmix(h, v.n as u64)));
     judge_det_scaling(st, &mut r, class, ar);
+    judge_inverse_scaling(st, &mut r, class, ar);
 }
 
 pub fn run(ctx: &Ctx) -> Report {
